@@ -7,3 +7,5 @@ require github.com/256dpi/gomqtt v0.0.0
 require github.com/256dpi/mercury v0.2.0 // indirect
 
 replace github.com/256dpi/gomqtt => /repo
+
+require github.com/anishathalye/porcupine v1.3.0
